@@ -89,7 +89,27 @@ func healthyStore(r *Rng, bound time.Duration) StoreCfg {
 }
 
 // lifecycle: random start/stop/restart actions of the instances until `until`.
+// statusCalls adds Status()/read calls of client goroutines: some at random times, some at the
+// very instant of another action (a snapshot that overlaps a transition).
+func statusCalls(r *Rng, p *Plan) {
+	n := len(p.Actions)
+	for k := 0; k < 2+r.Intn(6); k++ {
+		a := Action{Kind: Pick(r, []string{AStatus, AReadAPI}), Inst: r.Intn(len(p.Insts))}
+		if n > 0 && r.Bool(0.6) {
+			b := p.Actions[r.Intn(n)]
+			a.At, a.OpN, a.OpKind, a.Phase, a.Delay = b.At, b.OpN, b.OpKind, b.Phase, b.Delay
+			if b.Kind != AOutPut && b.Kind != AOutDelete && b.Kind != AExpire {
+				a.Inst = b.Inst
+			}
+		} else {
+			a.At = r.Dur(0, p.Until)
+		}
+		p.Actions = append(p.Actions, a)
+	}
+}
+
 func lifecycle(r *Rng, p *Plan, until time.Duration, allowCrash bool, stopKinds []string) {
+	defer statusCalls(r, p)
 	for i := range p.Insts {
 		t := r.Dur(0, 300*ms)
 		if r.Bool(0.3) {
@@ -583,6 +603,13 @@ func init() {
 		p.Store = StoreCfg{Req: [2]Dur{0, hi}, Resp: [2]Dur{0, hi}, WatchDelay: [2]Dur{0, p.H / 10}}
 		p.Until = 4*p.H + time.Duration(n)*4*p.H + 8*p.H + 2*sec
 		p.Sched = SchedCfg{YieldProb: Pick(r, []float64{0, 0.2})}
+		if r.Bool(0.4) {
+			// slow processes while everybody starts: takers stall up to 2H between a takeover's
+			// read and its write, so that the incumbent's refresh lands in between and whole
+			// acquisition rounds are refused; the stalls end at 4H+2s (after every round that a start triggers) and the promptness clause is
+			// judged from then on
+			p.Sched = SchedCfg{YieldProb: Pick(r, []float64{0.6, 0.9}), StallMax: 2 * p.H, StallUntil: 4*p.H + 2*sec, StallSites: []string{"takeover.read"}}
+		}
 		return p
 	}
 }
@@ -790,8 +817,41 @@ func init() {
 				p.Actions = append(p.Actions, Action{At: t, Kind: AReconnect, Inst: r.Intn(n)})
 			}
 		}
+		// grace expiry coinciding with a second cause of demotion: the disconnect notification
+		// arrives at t, the grace timer fires at exactly t+grace, and at that very instant a stop,
+		// a manual validation of a record that a foreign writer has just replaced, or the failure
+		// of a refresh lands as well
+		if r.Bool(0.35) {
+			g := Pick(r, []time.Duration{2 * p.H, 3 * p.H})
+			p.Insts[0].Monitor, p.Insts[0].Grace = true, g
+			t := r.Dur(3*p.H, p.Until-g-p.H)
+			p.Actions = append(p.Actions, Action{At: t, Kind: ADisconnect, Inst: 0})
+			switch r.Intn(4) {
+			case 0:
+				p.Actions = append(p.Actions, Action{At: t + g, Kind: Pick(r, []string{AStop, AStopCtx}), Inst: 0, DeleteKey: r.Bool(0.5)})
+			case 1:
+				p.Actions = append(p.Actions, Action{At: t + g - p.Store.Req[1] - p.Store.Resp[1] - ms, Kind: AOutPut, Key: "g1", Value: []byte(`{"id":"intruder","token":"00000000-0000-4000-8000-000000000001","priority":7}`)})
+				p.Actions = append(p.Actions, Action{At: t + g - p.Store.Req[1] - p.Store.Resp[1], Kind: AValidateOD, Inst: 0})
+			case 2:
+				p.Actions = append(p.Actions, Action{At: t + g - r.Dur(0, p.H), Kind: AOutDelete, Key: "g1"})
+			default:
+				p.Faults = append(p.Faults, Fault{Kind: FError, Inst: 0, Op: "update", From: t, To: t + g + 3*p.H, Err: "timeout"})
+			}
+		}
+		statusCalls(r, p)
 		p.Tail = 0
 		p.Sched = SchedCfg{YieldProb: Pick(r, []float64{0.1, 0.3, 0.6}), StallMax: Pick(r, []time.Duration{0, 0, p.H / 20})}
+		if r.Bool(0.2) {
+			// a slow demoting goroutine: up to 300 ms between the end of the claim and the
+			// OnDemote call, while the record is gone (outsider delete) and the instance
+			// re-acquires at once: the next term's OnPromote must still come after this OnDemote
+			p.Sched = SchedCfg{YieldProb: 0.7, StallMax: 300 * ms, StallSites: []string{"runOnDemote", "becomeFollower:unlocked"}}
+			t := r.Dur(2*p.H, p.Until/2)
+			for k := 0; k < 1+r.Intn(3); k++ {
+				p.Actions = append(p.Actions, Action{At: t, Kind: AOutDelete, Key: "g1"})
+				t += r.Dur(2*p.H, 4*p.H)
+			}
+		}
 		return p
 	}
 }
@@ -862,6 +922,8 @@ func enumerateStopPoint(p *Plan, seed uint64) {
 		{Kind: AStopCtx, WaitForDemote: true, Timeout: 1 * sec},
 		{Kind: AStopCtx, DeleteKey: true, Timeout: 10 * sec, CtxTimeout: 2 * sec},
 		{Kind: AStopCtx, CtxCancelAt: 300 * ms},
+		{Kind: AStop},
+		{Kind: AStop},
 	}
 	k := seed
 	opn := int(k%16) + 1
@@ -871,22 +933,43 @@ func enumerateStopPoint(p *Plan, seed uint64) {
 	v := variants[k%uint64(len(variants))]
 	v.Inst = 0
 	v.OpN, v.Phase, v.Delay = opn, phases[ph], delays[ph]
-	p.Actions = append(p.Actions, v)
 	r := NewRng(seed, "c09stop-extra")
+	opKind := ""
+	if r.Bool(0.25) {
+		// the stop point is one of the instance's own acquisitions (its 1st..3rd create)
+		opKind, opn = "create", 1+opn%3
+		if r.Bool(0.5) {
+			opn = 1
+		}
+		if r.Bool(0.6) { // while the create is in flight
+			ph = 1 + r.Intn(2)
+			v.Phase, v.Delay = phases[ph], delays[ph]
+		}
+		v.OpKind, v.OpN = opKind, opn
+	}
+	p.Actions = append(p.Actions, v)
 	if r.Bool(0.4) { // repeated stop, or stop then start
-		p.Actions = append(p.Actions, Action{OpN: opn, Phase: phases[ph], Delay: delays[ph] + r.Dur(0, 8*sec), Inst: 0, Kind: Pick(r, []string{AStop, AStopCtx, AStart})})
+		p.Actions = append(p.Actions, Action{OpN: opn, OpKind: opKind, Phase: phases[ph], Delay: delays[ph] + r.Dur(0, 8*sec), Inst: 0, Kind: Pick(r, []string{AStop, AStopCtx, AStart})})
 	} else if r.Bool(0.4) { // two stop calls at the very same instant (two shutdown paths of one program)
 		w := Pick(r, variants)
 		if r.Bool(0.5) {
 			w = v // the same variant twice
 		}
-		w.Inst, w.OpN, w.Phase, w.Delay = 0, opn, phases[ph], delays[ph]
+		w.Inst, w.OpN, w.OpKind, w.Phase, w.Delay = 0, opn, opKind, phases[ph], delays[ph]
 		p.Actions = append(p.Actions, w)
 	}
+	statusCalls(r, p)
 	p.Note = fmt.Sprintf("stop point: op %d phase %s(+%d) variant %d", opn, phases[ph], delays[ph], k%uint64(len(variants)))
 	p.Until = 20*p.H + 3*p.TTL + 8*sec
 	p.Tail = 0
 	p.Sched = SchedCfg{YieldProb: Pick(r, []float64{0, 0.2, 0.5}), StallMax: 0}
+	if r.Bool(0.3) || opKind != "" && r.Bool(0.5) {
+		// a slow stop call: the stopping goroutine stalls (up to H/2, long enough for a response in
+		// flight to arrive) before a lock acquisition or right after a release inside the stop
+		// functions; everything else runs at full speed
+		p.Sched = SchedCfg{YieldProb: Pick(r, []float64{0.5, 0.9}), StallMax: p.H / 2,
+			StallSites: []string{"Stop", "Stop:unlocked", "StopWithContext", "StopWithContext:unlocked"}}
+	}
 }
 
 func init() {
@@ -947,6 +1030,47 @@ func init() {
 		p.Until = t + 2*p.TTL + 2*sec
 		p.Tail = 0
 		p.Sched = SchedCfg{YieldProb: Pick(r, []float64{0.1, 0.3, 0.6}), StallMax: Pick(r, []time.Duration{0, p.H / 50, p.H / 50})}
+		return p
+	}
+}
+
+func init() {
+	// C07 "stale": fault-free; watch notifications are late by more than the 500 ms periodic check
+	// (delivery stays FIFO per subscription), so a follower learns of a vacancy from its periodic
+	// check and wins the record while notifications of the previous leader's refreshes are still
+	// in flight; goroutines stall up to H/8 at yield sites, so such a notification can be half
+	// processed when the promotion happens. Leaders hand over by StopWithContext{DeleteKey} or
+	// Stop shortly after a refresh, several times per plan.
+	families["c07stale"] = func(r *Rng) *Plan {
+		p := &Plan{Judge: []string{"C07", "C08", "C19", "C02", "C01"}}
+		p.H = Pick(r, []time.Duration{200 * ms, 200 * ms, 500 * ms, 1 * sec})
+		p.TTL = Pick(r, []time.Duration{3 * p.H, 5 * p.H})
+		n := 2 + r.Intn(2)
+		p.Insts = mkInsts(r, n, 1)
+		for i := range p.Insts {
+			p.Insts[i].V = Pick(r, []time.Duration{0, 0, 2 * p.H})
+		}
+		lat := Pick(r, []time.Duration{p.H / 10, p.H / 4, 5 * ms})
+		p.Store = healthyStore(r, lat)
+		wd := Pick(r, []time.Duration{600 * ms, 1 * sec, 2 * sec})
+		p.Store.WatchDelay = [2]Dur{wd / 2, wd}
+		for i := 0; i < n; i++ {
+			p.Actions = append(p.Actions, Action{At: time.Duration(i) * r.Dur(10*ms, 60*ms), Kind: AStart, Inst: i})
+		}
+		// every few heartbeats whoever may lead is stopped (all instances get the stop; only the
+		// leader's has an effect on the record) and restarted after the vacancy was filled
+		t := r.Dur(3*p.H, 6*p.H)
+		cycles := 2 + r.Intn(5)
+		for k := 0; k < cycles; k++ {
+			i := k % n
+			kind := Pick(r, []string{AStopCtx, AStopCtx, AStop})
+			p.Actions = append(p.Actions, Action{At: t, Kind: kind, Inst: i, DeleteKey: kind == AStopCtx})
+			p.Actions = append(p.Actions, Action{At: t + r.Dur(1*sec, 2*sec), Kind: AStart, Inst: i})
+			t += r.Dur(2*sec+3*p.H, 3*sec+6*p.H)
+		}
+		p.Until = t + 2*p.TTL + 2*sec
+		p.Tail = 0
+		p.Sched = SchedCfg{YieldProb: Pick(r, []float64{0.3, 0.6}), StallMax: Pick(r, []time.Duration{p.H / 50, p.H / 8, p.H / 8})}
 		return p
 	}
 }
